@@ -3,6 +3,8 @@ package props
 import (
 	"context"
 	"fmt"
+	"io"
+	"log/slog"
 	"os"
 	"path/filepath"
 	"sort"
@@ -19,6 +21,7 @@ import (
 	"github.com/form3tech-oss/f1/v2/internal/options"
 	"github.com/form3tech-oss/f1/v2/internal/trigger/api"
 	"github.com/form3tech-oss/f1/v2/internal/trigger/file"
+	"github.com/form3tech-oss/f1/v2/pkg/f1"
 	"github.com/form3tech-oss/f1/v2/pkg/f1/scenarios"
 	f1testing "github.com/form3tech-oss/f1/v2/pkg/f1/testing"
 	"github.com/form3tech-oss/f1/v2/verifharness/core"
@@ -94,9 +97,16 @@ func init() {
 				c.TimeoutMS = 60000
 				cs = append(cs, c)
 			}
+			// the real command line (`run file <plan>`): parameter values reach the scenario exactly as the file spells them
+			for i := 0; i < 2; i++ {
+				c := core.MkCase("C15", "clirun", i, seed, map[string]int{"i": i})
+				c.Solo = true
+				c.TimeoutMS = 60000
+				cs = append(cs, c)
+			}
 			return cs
 		},
-		Kinds:  map[string]core.RunFunc{"parse": c15Parse, "run": c15RunPlan, "builder": c15Builder},
+		Kinds:  map[string]core.RunFunc{"parse": c15Parse, "run": c15RunPlan, "builder": c15Builder, "clirun": c15CLIRun},
 		Floors: map[string]int64{"plans": 3000, "plans_with_dropped_stage": 500, "boundary_instants": 300, "run_stage_evaluations": 100, "run_env_reads_in_bodies": 100},
 	})
 }
@@ -1024,4 +1034,91 @@ func c15Builder(c *core.Case, o *core.Outcome) {
 	o.Events += 1
 	o.AddObs("builder_cases", 1)
 	o.Sig("builder:fifo=%d:late=%d", pp["fifo"], pp["late"])
+}
+
+// c15CLIRun: a two-stage plan given to the real command line; the parameter values contain characters that mean something
+// to shells and template engines ($, ${...}, %, braces, backslashes). Every body looks its stage's parameters up: they are
+// what the file says, byte for byte; after the run none of them is left.
+func c15CLIRun(c *core.Case, o *core.Outcome) {
+	var pp map[string]int
+	c.Params(&pp)
+	vals := [][2]string{
+		{"VERIF_CLI_A", "pa$$word"}, {"VERIF_CLI_B", "$NOT_A_VAR.items[0]"}, {"VERIF_CLI_C", "tok-${HOME}-end"}, {"VERIF_CLI_D", "100$"},
+		{"VERIF_CLI_E", "50%d{{.X}}"}, {"VERIF_CLI_F", `back\\slash`}, {"VERIF_CLI_G", "$"}, {"VERIF_CLI_H", "${}"},
+	}
+	if pp["i"] == 1 {
+		vals = vals[4:]
+		vals = append(vals, [2]string{"VERIF_CLI_A", "$HOME/$USER"}, [2]string{"VERIF_CLI_B", "a$1b"})
+	}
+	var stage [2]strings.Builder
+	want := [2]map[string]string{{}, {}}
+	for k, kv := range vals {
+		fmt.Fprintf(&stage[k%2], "    %s: '%s'\n", kv[0], strings.ReplaceAll(kv[1], "'", "''"))
+		want[k%2][kv[0]] = kv[1]
+	}
+	y := "scenario: cliPlan\nlimits:\n  max-duration: 10s\n  concurrency: 2\n  max-iterations: 0\n  ignore-dropped: true\ndefault:\n  distribution: none\n  jitter: 0\nstages:\n" +
+		"- duration: 250ms\n  mode: constant\n  rate: 2/20ms\n  parameters:\n    VERIF_CLI_STAGE: one\n" + stage[0].String() +
+		"- duration: 250ms\n  mode: users\n  parameters:\n    VERIF_CLI_STAGE: two\n" + stage[1].String()
+	path, err := engine.TempYAML(y)
+	if err != nil {
+		o.Inconc("cannot write the plan: %v", err)
+		return
+	}
+	defer os.Remove(path)
+	var mu sync.Mutex
+	var wrong []string
+	var reads atomic.Int64
+	scenario := func(*f1testing.T) f1testing.RunFn {
+		return func(*f1testing.T) {
+			st := os.Getenv("VERIF_CLI_STAGE")
+			idx := map[string]int{"one": 0, "two": 1}
+			k, ok := idx[st]
+			if !ok {
+				return
+			}
+			for name, w := range want[k] {
+				got, set := os.LookupEnv(name)
+				reads.Add(1)
+				// (a second look: the stage may have ended in between)
+				if (got != w || !set) && os.Getenv("VERIF_CLI_STAGE") == st {
+					time.Sleep(2 * time.Millisecond)
+					if g2, s2 := os.LookupEnv(name); (g2 != w || !s2) && os.Getenv("VERIF_CLI_STAGE") == st {
+						mu.Lock()
+						if len(wrong) < 5 {
+							wrong = append(wrong, fmt.Sprintf("stage %s: %s=%q (set=%v), the file says %q", st, name, g2, s2, w))
+						}
+						mu.Unlock()
+					}
+				}
+			}
+			time.Sleep(2 * time.Millisecond)
+		}
+	}
+	quiet := slog.New(slog.NewTextHandler(io.Discard, nil))
+	rerr := f1.New().WithLogger(quiet).Add("cliPlan", scenario).ExecuteWithArgs([]string{"run", "file", path})
+	o.Events = reads.Load()
+	desc := fmt.Sprintf("run file <plan with %d parameters whose values contain $, %%, braces or backslashes>", len(vals))
+	if rerr != nil {
+		o.Violate("clirun-error:"+desc, "the plan was not run: %v (%s)", rerr, desc)
+		return
+	}
+	mu.Lock()
+	defer mu.Unlock()
+	if len(wrong) > 0 {
+		o.Violate("clirun-values:"+desc, "parameters did not reach the scenario as the file spells them: %s (%s)", strings.Join(wrong, "; "), desc)
+		return
+	}
+	for _, kv := range vals {
+		if v, set := os.LookupEnv(kv[0]); set {
+			o.Violate("clirun-left:"+desc, "%s=%q is still set after the run (%s)", kv[0], v, desc)
+			return
+		}
+	}
+	if reads.Load() < 20 {
+		o.Inconc("only %d look-ups were made (%s)", reads.Load(), desc)
+		return
+	}
+	o.AddObs("run_env_reads_in_bodies", reads.Load())
+	o.Sig("clirun:%d", pp["i"])
+	o.Sample = map[string]any{"case": desc, "look_ups": reads.Load()}
 }
